@@ -258,10 +258,18 @@ Fixpoint verify_params (c : mclass) (m : msg) (ps : list param) : res unit :=
 Definition generic_verify (c : mclass) (m : msg) : res unit := verify_params c m (c_params c).
 
 (* ================================ to_urlencoded ================================ *)
+(* str(int): decimal text, computed from the binary representation (PyStr.str_of_Z goes through
+   unary nat and is unusable for 2^63) *)
+Definition str_of_int (z : Z) : pystr :=
+  match z with
+  | Z0 => [48]
+  | Zpos p => uint_codes (Pos.to_uint p)
+  | Zneg p => 45 :: uint_codes (Pos.to_uint p)
+  end.
 Definition py_str (v : pyval) : res pystr :=
   match v with
   | VStr s => Ok s
-  | VInt z => Ok (str_of_Z z)
+  | VInt z => Ok (str_of_int z)
   | VBool true => Ok (PS "True")
   | VBool false => Ok (PS "False")
   | VNone => Ok (PS "None")
